@@ -66,6 +66,26 @@ reg('C18', 'model_checking',
     'bounding, CHESS style) on the real code', 'E1-schedule-explorer')
 
 
+reg('C06', 'model_checking',
+    'Explicit-state breadth-first search over all histories of <=3 (quick) / '
+    '<=4 (thorough) operations from a 50-operation alphabet (add/remove/'
+    'extract/append/extend/resize, add/remove property and constant, retag+'
+    'align, set_tag, clone, ensure/copy properties, pickle...) on real '
+    'ParticleArray objects (two interacting arrays, every C type, strided '
+    'properties), states deduplicated on the complete public implementation '
+    'state, a record-list reference model compared after every transition. '
+    'Bookkeeping bugs of this class (stale stride, wrong offset) have '
+    'witnesses of 2-3 operations, so a depth-bounded exhaustive search is '
+    'the right level.',
+    'Trusted: the record-list model in checks/c06_particle_array.py and its '
+    'reading of which argument combinations are documented as valid. '
+    'Interpreter crashes inside an operation are caught per transition '
+    '(crash-tolerant worker pool) and reported as violations. Not covered: '
+    'histories deeper than the bound, GPU back-ends.',
+    'explicit-state BFS over operation histories of the real object against '
+    'a reference model', 'E2-history-bfs')
+
+
 def main():
     props = [json.loads(l) for l in open(os.path.join(V, 'properties.jsonl'))]
     checks = []
